@@ -20,10 +20,13 @@ def total_strings(length, alphabet=ALPHABET):
     return len(alphabet) ** length
 
 
-NAMES = ["a", "b", "c", "x", "z", "g", "h", "x1", "mod.fn", "df.col_1", "Ab"]
-BQ = ["`q`", "`q q`", "`a+b`", "`x:y`", "`1st`", "`(p)`", "`~`", "`é|`"]
+NAMES = ["a", "b", "c", "x", "z", "g", "h", "x1", "mod.fn", "df.col_1", "Ab",
+         # near-literals and near-keywords are plain names; characters that a Unicode normalisation
+         # would rewrite (MICRO SIGN, superscript two, the fi ligature, full-width a) are kept as written
+         "true", "none", "TRUE", "False_", "nan", "e1", "in", "\u00b5g", "x\u00b2", "\ufb01x", "\uff41"]
+BQ = ["`q`", "`q q`", "`a+b`", "`x:y`", "`1st`", "`(p)`", "`~`", "`é|`", "`\u00b5 m`", "`True`", "`a\\b`"]
 FUNCS = ["f", "g2", "np.log", "center", "C", "mod.sub.fun"]
-STRS = ["'s'", '"s"', "'a b'", '"x:y"', "''", "'+'", '"(1|g)"']
+STRS = ["'s'", '"s"', "'a b'", '"x:y"', "''", "'+'", '"(1|g)"', "'Z\u00fcrich'", "'\u00b5g'", "'a\\nb'", '"\u212b"']
 NUMS = ["0", "1", "2", "3", "10", "1.5", ".5", "0.0", "007"]
 
 
@@ -96,6 +99,12 @@ def term_expr(rng, depth, allow_pipe=True):
     if r < 0.38 and allow_pipe:
         return ("bin", "|", term_expr(rng, depth - 1, False), term_expr(rng, depth - 1, False))
     if r < 0.43:
+        if rng.random() < 0.2:
+            # exponents the algebra has no meaning for: refused, or at least not silently dropped
+            e = rng.choice([("var", rng.choice(NAMES[:6]), None), ("lit", 2.5, None), ("lit", 2.0, None),
+                            ("call", ("var", "f", None), [("var", "c", None)]),
+                            ("bin", ":", ("var", "c", None), ("var", "z", None))])
+            return ("bin", "**", term_expr(rng, depth - 1, allow_pipe), e)
         return ("bin", "**", term_expr(rng, depth - 1, allow_pipe), ("lit", rng.choice([1, 2, 3]), None))
     op = rng.choice(["+", "+", "+", "-", "*", "/", ":", ":", "*"])
     return ("bin", op, term_expr(rng, depth - 1, allow_pipe), term_expr(rng, depth - 1, allow_pipe))
